@@ -64,7 +64,7 @@ def run(ctx):
     from . import c03 as c03_
     for c_ in ('x86_64',):      # the Neon schedule is compared by C03 / C09 / C14 (aarch64 facts); here the x86 engines
         ctx.guard('C06.analysable', ctx.shared, {'C03.a-schedule-siblings': 'C06.j-engines-run-one-schedule'}, c03_.schedules, ctx, ctx.facts(c_), c_)
-    ctx.guard('C06.analysable', ctx.shared, {'C10.b-iterators': 'C06.e-one-shot-items-validated', 'C10.b-items-reach-add': 'C06.e-one-shot-items-validated'}, c10.both, ctx, f0, cfgs[0])
+    ctx.guard('C06.analysable', ctx.shared, {'C10.b-iterators': 'C06.e-one-shot-items-validated', 'C10.b-items-reach-add': 'C06.e-one-shot-items-validated', 'C10.l-inputs-drained': 'C06.e-one-shot-items-validated'}, c10.both, ctx, f0, cfgs[0])
     for cfg in cfgs:
         facts = ctx.facts(cfg)
         ctx.guard('C06.analysable', check_taint, ctx, facts, cfg)
